@@ -334,3 +334,16 @@ func feedsReturn(v ssa.Value, depth int) bool {
 	}
 	return false
 }
+
+// edgeDominates: every path to `use` takes the idx-th outgoing edge of block b
+// (the edge target has b as its only predecessor and dominates use).
+func edgeDominates(b *ssa.BasicBlock, idx int, use *ssa.BasicBlock) bool {
+	if idx >= len(b.Succs) {
+		return false
+	}
+	s := b.Succs[idx]
+	if len(s.Preds) != 1 {
+		return false
+	}
+	return s == use || s.Dominates(use)
+}
